@@ -681,6 +681,24 @@ fn c10_regexes(tier: Tier) -> Vec<P> {
             }
         }
     }
+    // two rigid blocks between / around sigma* (the union of the suffixes arises in the derivatives): the search must not
+    // lose the branch in which the second block starts inside the first one's match
+    for b1 in short.iter() {
+        for b2 in short.iter() {
+            let all = a2(P::All);
+            v.push(P::ConcatL(vec![all.clone(), b1.clone(), all.clone(), b2.clone()]));
+            v.push(P::ConcatL(vec![b1.clone(), all.clone(), b2.clone(), all.clone()]));
+            v.push(P::ConcatL(vec![all.clone(), b1.clone(), all.clone(), b2.clone(), all.clone()]));
+        }
+    }
+    // anchored nested loops: x (inner){c,d} y with inner a power or a loop (a flattened loop with holes matches too much)
+    for inner in [a2(P::Pow(a2(P::Ch(a)), 2)), a2(P::Pow(a2(P::Ch(a)), 3)), a2(P::Loop(a2(P::Ch(a)), 2, 3)), a2(P::Loop(a2(P::Ch(a)), 4, 5)), a2(P::Pow(a2(P::Str(vec![a, b])), 2))] {
+        for (c, d) in [(2u32, 3u32), (1, 2), (2, 2), (3, 4), (0, 2)] {
+            let lp = a2(P::Loop(inner.clone(), c, d));
+            v.push(P::Concat(a2(P::Ch(b)), a2(P::Concat(lp.clone(), a2(P::Ch(b))))));
+            v.push(P::Concat(a2(P::Ch(c_of(a))), a2(P::Concat(a2(P::LoopInf(inner.clone(), c)), a2(P::Ch(b))))));
+        }
+    }
     // unions of complements whose bodies are in (detectable) inclusion, inside a frame
     for l in lit.iter().take(14) {
         for m in lit.iter().take(14) {
@@ -710,6 +728,9 @@ fn c10_regexes(tier: Tier) -> Vec<P> {
     }
     v
 }
+fn c_of(a: u32) -> u32 {
+    a + 2
+}
 fn z_of(x: u32, y: u32) -> u32 {
     // a letter of {a,b,c} different from x (and from y if possible)
     *[A, A + 1, A + 2].iter().find(|&&z| z != x && z != y).unwrap_or(&(A + 2))
@@ -720,6 +741,29 @@ fn c10_subjects(tier: Tier) -> Vec<Vec<u32>> {
 }
 
 /// periodic subjects of length 15, 16, 17, 31, 32, 33, 64, 65 over the first letters of the universe
+/// x a^k y for k = 0..=16 and (x, y) in {(b,b), (c,b)}; x (ab)^k y likewise: counting subjects for the loop regexes
+fn c10_counting_subjects() -> Vec<Vec<u32>> {
+    let mut v = vec![];
+    for k in 0..=16usize {
+        for (x, y) in [(A + 1, A + 1), (A + 2, A + 1)] {
+            let mut s = vec![x];
+            s.extend(std::iter::repeat(A).take(k));
+            s.push(y);
+            v.push(s);
+            if k <= 8 {
+                let mut s = vec![x];
+                for _ in 0..k {
+                    s.push(A);
+                    s.push(A + 1);
+                }
+                s.push(y);
+                v.push(s);
+            }
+        }
+    }
+    v
+}
+
 fn c10_long_subjects(u: &Universe) -> Vec<Vec<u32>> {
     let letters: Vec<u32> = if u.id == 4 { vec![0x42, 0x142, 0x41] } else { vec![A, A + 1, A + 2] };
     let units: Vec<Vec<u32>> = vec![vec![letters[0]], vec![letters[0], letters[1]], vec![letters[0], letters[1], letters[2]], vec![letters[0], letters[0], letters[1]]];
@@ -881,6 +925,20 @@ impl Engine for C10Engine {
                 }
                 // long subjects (block sizes of buffers and copy loops): periodic strings of 15..65 characters, for every
                 // 16th regex of the set
+                // regexes with a loop: counting subjects x a^k y
+                if u.id == 0 && p.show().contains("loop") {
+                    for s in c10_counting_subjects() {
+                        rep.inc("states");
+                        rep.inc("counting_subjects");
+                        let t = C10_REPL[2];
+                        rep.inc("evaluations");
+                        rep.add("transitions", 2);
+                        rep.add("impl_traces", 2);
+                        if let Some(m) = c10_check(&u, p, &rf, tw, &s, t) {
+                            rep.violation("C10", "c10", json!({"universe": u.id, "prog": p.show(), "s": s, "t": t}), m);
+                        }
+                    }
+                }
                 if k % 16 == 3 {
                     for s in c10_long_subjects(&u) {
                         rep.inc("states");
@@ -1121,6 +1179,48 @@ fn c16_pool(tier: Tier, family: usize) -> C16Pool {
                 }
             }
         }
+        // (vi) constant strings in several spellings: powers of one- and two-letter blocks, the same words written out,
+        // with a letter in front or behind, and with loops over nullable bodies (where a length bound must not be read off
+        // the loop counter)
+        5 => {
+            let letters: Vec<Arc<P>> = vec![a.clone(), b.clone()];
+            let mut blocks: Vec<Arc<P>> = letters.clone();
+            for x in &letters {
+                for y in &letters {
+                    blocks.push(a2(P::Concat(x.clone(), y.clone())));
+                }
+            }
+            let mut terms: Vec<Arc<P>> = vec![];
+            for bl in &blocks {
+                terms.push(bl.clone());
+                for k in 2..=3u32 {
+                    terms.push(a2(P::Pow(bl.clone(), k)));
+                    terms.push(a2(P::Loop(bl.clone(), k, k)));
+                }
+                terms.push(a2(P::Concat(bl.clone(), bl.clone())));
+                terms.push(a2(P::Loop(bl.clone(), 1, 2)));
+                terms.push(a2(P::Plus(bl.clone())));
+                terms.push(a2(P::Plus(a2(P::Comp(bl.clone())))));
+                terms.push(a2(P::Pow(a2(P::Opt(bl.clone())), 2)));
+            }
+            let base = terms.clone();
+            for t in &base {
+                for l in &letters {
+                    terms.push(a2(P::Concat(t.clone(), l.clone())));
+                    terms.push(a2(P::Concat(l.clone(), t.clone())));
+                }
+            }
+            terms.push(a2(P::Plus(sig.clone())));
+            terms.push(a2(P::Concat(sig.clone(), a2(P::Plus(sig.clone())))));
+            terms.push(a2(P::LoopInf(sig.clone(), 3)));
+            terms.push(all.clone());
+            for (i, t) in terms.iter().enumerate() {
+                progs.push((**t).clone());
+                if i < 40 {
+                    short.push(progs.len() - 1);
+                }
+            }
+        }
         // (iii) long sequences over 6 elements (rigid/flexible patterns on both sides)
         _ => {
             let elems: Vec<Arc<P>> = vec![a.clone(), all.clone(), b.clone(), sig.clone(), ab.clone(), a2(P::Star(a.clone())), a2(P::Plus(b.clone()))];
@@ -1160,7 +1260,7 @@ fn c16_pool(tier: Tier, family: usize) -> C16Pool {
 
 pub struct C16Engine;
 const C16_NB: usize = 128;
-const C16_FAMILIES: usize = 5;
+const C16_FAMILIES: usize = 6;
 
 fn c16_pair(pool: &C16Pool, re: &mut ReManager, terms: &[RegLan], i: usize, j: usize, memo: &mut HashMap<(usize, usize), bool>) -> (bool, Option<String>) {
     publish_case(|| json!({"kind": "pair", "family": pool.family, "tier": pool.tier, "i": i, "j": j, "r": pool.progs[i].show(), "s": pool.progs[j].show()}));
@@ -1221,7 +1321,7 @@ impl Engine for C16Engine {
         let sizes: Vec<usize> = (0..C16_FAMILIES).map(|f| c16_pool(ctx.tier, f).progs.len()).collect();
         Meta {
             level: "model_checking",
-            rule: format!("all ordered pairs (r, s) of five term pools ({} sequence terms with boolean combinations, {} level-1 programs, {} long concatenations, {} runs of ranges bracketed by Sigma*, {} letter sequences against letters separated by restrictive loops): whenever r.included_in(s) is true, L(r) must be a subset of L(s) (product of the canonical reference DFAs, memoised per pair of languages); 'false' is never questioned; union(x, y), union(y, x) and union_list over short/extra terms must denote the union (product BFS of the derivative graph with the union of the reference DFAs); states/transitions count the union products, evaluations the ordered pairs; non-trivial = distinct ordered pairs for which included_in answered true", sizes[0], sizes[1], sizes[2], sizes[3], sizes[4]),
+            rule: format!("all ordered pairs (r, s) of six term pools ({} sequence terms with boolean combinations, {} level-1 programs, {} long concatenations, {} runs of ranges bracketed by Sigma*, {} letter sequences against letters separated by restrictive loops, {} constant strings in several spellings and loops over nullable bodies): whenever r.included_in(s) is true, L(r) must be a subset of L(s) (product of the canonical reference DFAs, memoised per pair of languages); 'false' is never questioned; union(x, y), union(y, x) and union_list over short/extra terms must denote the union (product BFS of the derivative graph with the union of the reference DFAs); states/transitions count the union products, evaluations the ordered pairs; non-trivial = distinct ordered pairs for which included_in answered true", sizes[0], sizes[1], sizes[2], sizes[3], sizes[4], sizes[5]),
             assumptions: vec!["inclusion of reference languages is decided on canonical minimal DFAs over the region alphabet".into()],
             exhaustive: true,
             space: "see rule".into(),
